@@ -8,6 +8,7 @@ import (
 	"lunar/toolkit-core/configuration"
 	contextmanager "lunar/toolkit-core/context-manager"
 	"lunar/toolkit-core/vacuum"
+	"lunar/toolkit-core/verifhook"
 	"os"
 	"sort"
 	"strings"
@@ -178,11 +179,13 @@ func (txnPoliciesAccessor *TxnPoliciesAccessor) UpdatePoliciesData(
 func (txnPoliciesAccessor *TxnPoliciesAccessor) setTxnVersion(
 	txnID TxnID,
 ) PoliciesVersion {
+	verifhook.Point("pa.pin.before_lock", "txn", string(txnID))
 	txnPoliciesAccessor.mutex.Lock()
 	currentVersion := txnPoliciesAccessor.currentVersion
 	txnPoliciesAccessor.txnVersions[txnID] = currentVersion
 	txnPoliciesAccessor.mutex.Unlock()
 
+	verifhook.Point("pa.pin.before_vacuumkey", "txn", string(txnID))
 	txnPoliciesAccessor.txnVersionsVacuum.VacuumKey(txnID)
 
 	return currentVersion
@@ -197,6 +200,7 @@ func (txnPoliciesAccessor *TxnPoliciesAccessor) setNextVersion(
 	txnPoliciesAccessor.policiesVersions[txnPoliciesAccessor.currentVersion] = policiesData
 	txnPoliciesAccessor.mutex.Unlock()
 
+	verifhook.Point("pa.version.before_vacuumkey")
 	txnPoliciesAccessor.policiesVersionsVacuum.VacuumKey(previousVersion)
 
 	return previousVersion
